@@ -1041,7 +1041,7 @@ func emitTranslated(p *pkgInfo) (out string, err error) {
 	t := &trans{p: p, ren: map[string]string{}, sigs: map[string]sig{}, psigs: map[string]psig{}}
 	knownStructs = p.structs
 	var b strings.Builder
-	b.WriteString("/- GENERATED by extract (translate.go) from /repo's current source: do not edit.\n   Go functions of the subset the translator understands, as Lean definitions; shifts and rotations\n   have Go's semantics (RapidModel/GoSem.lean). -/\nimport RapidModel.GoProg\nimport RapidModel.GoImp\nimport RapidModel.GoProgImp\n\nset_option linter.unusedVariables false\n\nnamespace Rapid.Translated\n\n")
+	b.WriteString("/- GENERATED by extract (translate.go) from /repo's current source: do not edit.\n   Go functions of the subset the translator understands, as Lean definitions; shifts and rotations\n   have Go's semantics (RapidModel/GoSem.lean). -/\nimport RapidModel.GoProg\nimport RapidModel.GoImp\nimport RapidModel.GoProgImp\nimport RapidModel.GoScript\n\nset_option linter.unusedVariables false\n\nnamespace Rapid.Translated\n\n")
 	b.WriteString(t.function("bitmask64", "bitmask64"))
 	b.WriteString("\n")
 	b.WriteString(t.function("ufloatFracBits", "ufloatFracBits"))
@@ -1124,6 +1124,17 @@ func emitTranslated(p *pkgInfo) (out string, err error) {
 	b.WriteString("/-! ### shrink.go: `minimize` and the minimizer -/\n\n")
 	for _, fn := range []string{"minimizer.accept", "minimizer.rShift", "minimizer.unsetBits", "minimizer.sortBits", "minimizer.binSearch", "minimize", "compareData", "without"} {
 		b.WriteString(t.impFunction(fn, isigs))
+		b.WriteString("\n")
+	}
+	b.WriteString("/-! ### shrink.go: the passes of the shrinker, in `Go.SM` (reads of the shrinker's state and `accept` are effects) -/\n\n")
+	b.WriteString("/-- the model's group record as the source's `groupInfo` -/\ndef groupInfoOf (g : Rapid.GI) : groupInfo :=\n  { begin := Int64.ofInt (g.begin : Int), end_ := Int64.ofInt g.end_, label := g.label, standalone := g.standalone, discard := g.discard }\n\n")
+	ssigs := map[string]*isig{"without": isigs["without"], "compareData": isigs["compareData"]}
+	for _, fn := range []string{"minimizer.accept", "minimizer.rShift", "minimizer.unsetBits", "minimizer.sortBits", "minimizer.binSearch", "minimize"} {
+		b.WriteString(t.impFunctionMode(fn, ssigs, true, "S"))
+		b.WriteString("\n")
+	}
+	for _, fn := range []string{"shrinker.removeGroups", "shrinker.minimizeBlocks", "shrinker.lowerFloatHack", "shrinker.removeGroupsAndLower", "shrinker.sortGroups", "shrinker.removeGroupSpans", "shrinker.shrink"} {
+		b.WriteString(t.impFunctionMode(fn, ssigs, true, ""))
 		b.WriteString("\n")
 	}
 	b.WriteString("/-! ### engine.go: the bytes of a fuzz input as 64-bit words (`checkFuzz`) -/\n\n")
